@@ -8,6 +8,7 @@ from ..report import Ctx
 # coherent (VIEW): a wrapper that forgets an invalidation makes the property false for the histories in which the other
 # view was already materialised -- exactly the histories unit tests do not sample.
 VIEW_DEPS = {
+    "C02": ["set_channel", "merge", "get_interleaved_message_pairings"],       # the TRACK field's domain rests on set_channel(i) being seen by the merge
     "C01": ["set_channel", "merge", "get_interleaved_message_pairings", "add_absolute_message"],
     "C03": ["set_channel", "merge", "get_interleaved_message_pairings", "add_absolute_message", "concatenate"],
     "C09": ["split", "quantise_note_lengths", "get_message_times_of_type", "normalise", "pad", "overwrite_relative_messages", "add_relative_message",
@@ -45,7 +46,15 @@ def _load_entry_rules(ctx: Ctx) -> None:
     _entry(ctx)
 
 
+def _set_channel_rules(ctx: Ctx) -> None:
+    """The TRACK field of every emitted token is below the track count because tokenise calls set_channel(i) on track i first:
+    set_channel must reach every message (C18's rules for it)."""
+    from . import c18
+    c18._check(ctx, only={"set_channel"})
+
+
 RULE_DEPS = {
+    "C02": [_set_channel_rules],
     "C12": [_normaliser_rules, _insertion_rules, _load_entry_rules],
     "C13": [_normaliser_rules, _insertion_rules],
 }
@@ -303,8 +312,16 @@ def dependency_closure(ctx: Ctx) -> None:
     keys = {f.key for f in ctx.findings}
     done = set()
     ran = []
+    # a registered routine that was moved to a base class is found under the name it has there
+    registry = dict(REGISTRY)
+    for key, ent_ in REGISTRY.items():
+        if key not in ctx.p.functions and "." in key:
+            c_, _, m_ = key.partition(".")
+            fi_ = ctx.p.lookup_method(c_, m_) if c_ in ctx.p.classes else None
+            if fi_ is not None:
+                registry.setdefault(fi_.qualname, ent_)
     for q in sorted(reach):
-        ent = REGISTRY.get(q) if full else None       # whole-class / whole-program properties only get the generic hazard rules
+        ent = registry.get(q) if full else None       # whole-class / whole-program properties only get the generic hazard rules
         if ent is None or id(ent[0]) in done:
             continue
         done.add(id(ent[0]))
@@ -337,8 +354,9 @@ def dependency_closure(ctx: Ctx) -> None:
     from ..engines.structure import misc_hazard_rules
     misc_hazard_rules(sub, reach | set(roots))
     check_tables_immutable(sub, "IMMUT")
-    from ..engines.structure import process_state_rule
+    from ..engines.structure import process_state_rule, undefined_name_rule
     process_state_rule(sub, "MEMO")
+    undefined_name_rule(sub, reach | set(roots))
     for o in sub.obligations:
         ctx.obligations.append(o)
     for f in sub.findings:
